@@ -25,6 +25,7 @@ type epochs struct {
 // the checkpoint named in the Deploy requests (M4). All members of one round must name the same checkpoint.
 func (x *run) installEpochSwitch() *epochs {
 	ep := &epochs{rounds: map[string]bool{}}
+	x.ep = ep
 	x.cl.OnOperatorDeploy = func(rec cluster.DeployRec) {
 		ms := append([]string{}, rec.Members...)
 		sort.Strings(ms)
@@ -238,7 +239,9 @@ func (x *run) deployOracle(ep *epochs) {
 	}
 	for _, d := range x.cl.Deploys() {
 		if d.DeadNode {
-			x.c.Fail("deploy-to-dead-node", x.wit("epochs", ep.history), "the job sent Deploy to %s (%s), which is dead", d.Node, d.Kind)
+			// not a violation: a killed node stays registered until its heartbeat expires, the job cannot know
+			// better (the fake tier decides membership exactly, at assembly formation)
+			x.c.Feat("deploys_to_killed_but_unexpired_nodes", 1)
 		}
 		if len(d.Members) != x.o.workers {
 			x.c.Fail("deploy-wrong-assembly-size", x.wit("epochs", ep.history), "Deploy to %s names %d operators, the job is configured for %d workers", d.Node, len(d.Members), x.o.workers)
